@@ -29,6 +29,9 @@ type opt struct {
 }
 
 func scenario(o opt) *explore.Scenario {
+	if o.kinds == 0 && !strings.HasPrefix(o.name, "fn/") {
+		o.kinds = uint32(1<<(sched.KFunc+1)-1) &^ uint32(1<<sched.KFunc) // everything but function entries
+	}
 	return &explore.Scenario{Name: o.name, MaxPre: o.pre, MaxDev: o.dev, Tiers: o.tiers, Opts: sched.Options{Kinds: o.kinds}, Setup: func() *explore.Instance {
 		w := tsoh.NewWorld(false)
 		w.Takeover = true
@@ -131,6 +134,10 @@ func main() {
 	ms := time.Millisecond
 	l = append(l, scenario(opt{name: "preloaded+1h/logical-creep", ad: none, pre: 1, dev: 0, tiers: "quick", kinds: noAtomics, preload: time.Hour, saveIvl: 3 * ms, counts: big, serial: true, clocks: []time.Duration{ms, ms, ms, ms, ms}, rounds: 5}))
 	l = append(l, scenario(opt{name: "preloaded+1h/logical-creep@2", ad: none, pre: 2, dev: 0, tiers: "thorough", preload: time.Hour, saveIvl: 3 * ms, counts: big, serial: true, clocks: []time.Duration{ms, ms, ms, ms, ms}, rounds: 5}))
+	// function-call granularity: a manual reset and the periodic update both save a window
+	setAd := tsoh.Admins()[6]
+	l = append(l, scenario(opt{name: "fn/" + setAd.Name, ad: setAd, pre: 2, dev: 0, tiers: "quick", fixedClock: 3 * time.Second, rounds: 1}))
+	l = append(l, scenario(opt{name: "fn/" + setAd.Name + "@3", ad: setAd, pre: 3, dev: 1, tiers: "thorough", rounds: 2}))
 	explore.Main(&explore.Config{
 		Property:  "C02",
 		Scenarios: l,
